@@ -1,6 +1,6 @@
 """C12 — prepared statements bind placeholders in textual order, like inline literals."""
-import copy, json, re
-from tools.harness import common, walkspec, walkrun
+import copy, json, os, re, subprocess, sys
+from tools.harness import common, walkspec, walkrun, walkhist
 from tools.harness.walkrun import VAL0
 
 ID = 'C12'
@@ -458,7 +458,115 @@ def kf_match(k, f):
     return True
 
 
+# ------------------------------------------------------------------ process history
+
+def probe_summary(schema, d, text):
+    """what the oracle says about one statement, deterministically (distinct values)"""
+    try:
+        with walkrun.harness_recursion():
+            fs = probe(schema, d, text, common.rng_for(0, 'history'), values='distinct')
+        return sorted('%s: %s' % (f['kind'], f['detail'][:200]) for f in fs)
+    except Exception as e:
+        return ['crash: %s: %s' % (type(e).__name__, str(e)[:200])]
+
+
+def run_history_spec(schema, spec):
+    """for a FRESH process: the oracle on the victim statement, then the history, then the oracle again"""
+    v = spec['victim']
+    before = probe_summary(schema, v['dialect'], v['text'])
+    cache, outcomes = {}, {}
+    for ev in spec['history']:
+        try:
+            o = walkhist.run_event(schema, ev, cache)
+        except Exception as e:
+            o = 'error:' + type(e).__name__
+        outcomes[o] = outcomes.get(o, 0) + 1
+    return before, probe_summary(schema, v['dialect'], v['text']), outcomes
+
+
+def history_in_fresh_process(spec, timeout=900):
+    code = ('import sys, json; sys.path.insert(0, %r); from tools.props import c12; from tools.harness import walkrun; '
+            'b, a, o = c12.run_history_spec(walkrun.load_schema(), json.load(sys.stdin)); '
+            'print(json.dumps(dict(same=(a == b), before=b, after=a, outcomes=o)))' % common.ROOT)
+    p = subprocess.run([sys.executable, '-W', 'ignore', '-c', code], input=json.dumps(dict(victim=spec['victim'], history=spec['history'])),
+                       capture_output=True, text=True, timeout=timeout, cwd=common.ROOT)
+    if p.returncode != 0:
+        raise RuntimeError('replay process failed: %s' % p.stderr[-800:])
+    return json.loads(p.stdout.strip().split('\n')[-1])
+
+
+def history_stream(chk, schema, pool, dist, quick, broken):
+    """process history: walks aborted by an exception of the visitor (any depth, nested), statements planned / rejected by the
+    planner, prepared statements executed with the right and with a wrong number of values — and afterwards the whole oracle on
+    prepared statements again: it must say what it said before the history"""
+    from mindsdb_sql import parse_sql
+    rng = common.rng_for(chk.seed, 'C12/history')
+    hp = []
+    for d, text in pool:
+        try:
+            with walkrun.harness_recursion():
+                num = walkspec.Numbering(parse_sql(text, d))
+        except Exception:
+            continue
+        dep = {0: 1}
+        for k in range(1, len(num.nodes)):
+            dep[k] = dep[num.parent[k][0]] + 1
+        if len(num.nodes) > 1:
+            hp.append((d, text, [dep[k] for k in range(len(num.nodes))]))
+    if not hp:
+        chk.oblige('probe:history-stream', 'probe', False, 'no statements for the history stream')
+        return
+    victims = [(d, text) for d in DIALECTS for text in rng.sample(FIXED[:15], 4 if quick else 15)]
+    victims += [(d, text) for d, text, _ in rng.sample(hp, min(len(hp), 6 if quick else 40)) if text.count('?')]
+    before = [probe_summary(schema, d, text) for d, text in victims]
+    n_events = (400 if quick else 5000) * (3 if quick and broken else 1)
+    events = walkhist.make_history(rng, hp, [], n_events, prepared=0.15)
+    cache, outcomes = {}, {}
+    for ev in events:
+        try:
+            o = walkhist.run_event(schema, ev, cache)
+        except Exception as e:
+            o = 'error:%s' % type(e).__name__
+        outcomes['%s/%s' % (ev[0], o)] = outcomes.get('%s/%s' % (ev[0], o), 0) + 1
+    bad = 0
+    for (d, text), b in zip(victims, before):
+        a = probe_summary(schema, d, text)
+        chk.count(('history', d, text))
+        if a != b:
+            bad += 1
+            if bad > 1:
+                continue
+            det = 'before the history the oracle said %s, after it %s' % (b or 'nothing', a or 'nothing')
+            f = dict(kind='history', detail=det, causes=[], dialect=d, text=text, victim=dict(dialect=d, text=text), history=events,
+                     desc='prepared statement: what holds for a statement depends on earlier calls in the same process (%d walks '
+                          'aborted by an exception of the visitor / nested walks / planned, rejected, prepared and executed '
+                          'statements) — %s' % (len(events), det[:600]), **{'class': 'history:'})
+            # make the record self-contained: the same in a fresh interpreter (lengthened if the check process carried state)
+            for hist in (events, events * 2, events * 4, events * 8):
+                f['history'] = hist
+                try:
+                    r = history_in_fresh_process(f)
+                except Exception as e:
+                    f['confirmed'] = 'fresh process failed: %s' % e
+                    break
+                if not r['same']:
+                    f['confirmed'] = 'fresh process, history of %d calls: before %s, after %s' % (len(hist), r['before'], r['after'])
+                    break
+            else:
+                f['history'] = events
+                f['confirmed'] = 'NOT reproduced in a fresh process'
+            f['desc'] += ' [%s]' % f['confirmed'][:400]
+            chk.classify(f, kf_match)
+            chk.failures.insert(0, f)
+    for k, v in outcomes.items():
+        dist['history/' + k] = v
+    dist['history/victims'] = len(victims)
+    ok = outcomes.get('abort/aborted', 0) >= n_events // 6 and any(k.startswith('prepare/') and not k.endswith('/executed') for k in outcomes)
+    chk.oblige('probe:history-stream', 'probe', ok or bad > 0, json.dumps(outcomes))
+
+
 def run(chk):
+    import time
     from mindsdb_sql import parse_sql
     quick = chk.tier == 'quick'
     broken = bool(chk.broken())
@@ -476,22 +584,35 @@ def run(chk):
     lines, metas = [], []
     dist = {}
     seen = set()
+    pool = []           # statements for the history stream
     for d in DIALECTS:
         rng = common.rng_for(chk.seed, 'C12/' + d)
         texts = list(FIXED) + [gen_statement(rng, d) for _ in range(n_gen)] \
             + [gen_many(rng, d) for _ in range(n_gen // 6)] + [gen_insert_rows(rng, d) for _ in range(n_gen // 8)]
+        # depth: placeholders in statements nested 120 … 260 levels (the walker is tied at 300 … 440 by C13's depth stream; here
+        # the whole oracle — count, binding, plan — has to hold on nested statements too)
+        drng = common.rng_for(chk.seed, 'C12/deep/' + d)
+        deep_texts = {c['text']: dep for c, _, dep in walkhist.deep_trees(drng, d, 3 if quick else 30, lo=120, hi=260,
+                                                                          need=lambda x: 1 <= x.count('?') <= 60)}
+        texts += list(deep_texts)
         for text in texts:
             try:
                 tree = parse_sql(text, d)
             except Exception:
                 dist['%s/rejected' % d] = dist.get('%s/rejected' % d, 0) + 1
                 continue
+            t_text = time.time()
+            if text in deep_texts:
+                dist['deep/depth>=%d' % (deep_texts[text] // 50 * 50)] = dist.get('deep/depth>=%d' % (deep_texts[text] // 50 * 50), 0) + 1
+            elif len(pool) < 300 and rng.random() < 0.25:
+                pool.append((d, text))
             n_text = text.count('?')
             chk.count((d, text))
             key = '%s/%s/params=%s' % (d, type(tree).__name__, min(n_text, 6))
             dist[key] = dist.get(key, 0) + 1
             try:
-                fails = probe(schema, d, text, rng)
+                with walkrun.harness_recursion():
+                    fails = probe(schema, d, text, rng)
             except Exception as e:
                 fails = [dict(kind='crash', detail='%s: %s' % (type(e).__name__, e), causes=[])]
             # ---- correspondence lines (model vs real walker functions and call sequences)
@@ -500,6 +621,10 @@ def run(chk):
                 c = walkrun.Case(tree, schema)
             except Exception:
                 c = None
+            if text in deep_texts:
+                # the call-sequence side copies and plans the tree: the harness needs room (C13 walks deeper trees under the
+                # ordinary limit)
+                sys.setrecursionlimit(walkrun.HARNESS_LIMIT)
             if c is not None and c.usable:
                 nfound = sum(1 for _ in [1])  # placeholder
                 r, num = c.fresh()
@@ -524,6 +649,9 @@ def run(chk):
                 metas.append((d, text, 'seq', ops, dict(visits=rs, tree='-', r='-', extra='')))
             else:
                 dist['corr/skipped'] = dist.get('corr/skipped', 0) + 1
+            sys.setrecursionlimit(walkrun.BASE_LIMIT)
+            if text in deep_texts:
+                dist['time/deep-statements'] = round(dist.get('time/deep-statements', 0) + time.time() - t_text, 2)
             for f in fails:
                 cs = f.get('causes') or []
                 dist['fail/%s/%s' % (f['kind'], '+'.join(cs) or '-')] = dist.get('fail/%s/%s' % (f['kind'], '+'.join(cs) or '-'), 0) + 1
@@ -537,9 +665,19 @@ def run(chk):
                         f['kf_cause'] = cs[0]
                 chk.classify(f, kf_match)
                 chk.fail(f)
+    # ---- history stream
+    t_h = time.time()
+    dist['time/main-stream'] = round(t_h - chk.t0, 1)
+    try:
+        history_stream(chk, schema, pool, dist, quick, broken)
+    except Exception as e:
+        chk.oblige('probe:history-stream', 'probe', False, 'history stream failed: %s: %s' % (type(e).__name__, e))
+    dist['time/history-stream'] = round(time.time() - t_h, 1)
     # ---- model side
     try:
+        t_l = time.time()
         outs = common.lean_run('Walk', lines)
+        dist['time/lean-driver'] = round(time.time() - t_l, 1)
         diverged, first = 0, None
         bad_texts = set()
         for (d, text, m, a, real), o in zip(metas, outs):
@@ -593,7 +731,13 @@ def replay(path):
         print(json.dumps(data, indent=1)[:3000])
         return 1
     schema = walkrun.load_schema()
-    fs = probe(schema, f['dialect'], f['text'], common.rng_for(0, 'replay'), values=f.get('values'))
+    if f.get('kind') == 'history':
+        r = history_in_fresh_process(f)
+        print('REPRODUCED' if not r['same'] else 'not reproduced', f['dialect'], repr(f['text'][:300]), 'history of %d calls %s;'
+              % (len(f['history']), json.dumps(r['outcomes'])), 'before:', r['before'], 'after:', r['after'])
+        return 0 if r['same'] else 1
+    with walkrun.harness_recursion():
+        fs = probe(schema, f['dialect'], f['text'], common.rng_for(0, 'replay'), values=f.get('values'))
     hit = [x for x in fs if x['kind'] == f['kind']]
     print('REPRODUCED' if hit else 'not reproduced', f['dialect'], repr(f['text'][:300]), f['kind'], hit[0]['detail'][:400] if hit else '')
     return 1 if hit else 0
